@@ -170,7 +170,7 @@ def helper_case(draw):
     fg = draw(gen.freq_grid(4, 10))
     dg = draw(gen.dir_grid(4, 12))
     return dict(fg=fg, dg=dg, which=draw(st.sampled_from(["construct_partition", "shapes", "read_ww3", "read_ncswan", "read_wwm", "read_era5", "read_ndbc", "read_wavespectra", "partition_and_reconstruct", "scaled",
-                                                                     "from_ww3_stdnames", "from_ncswan_stdnames", "from_wwm_direct", "from_era5_direct", "acc_stats_args", "acc_bbox_args", "acc_interp_args", "acc_plot_kwargs", "acc_plot_kwargs", "acc_split_args"])),
+                                                                     "chunks_dict", "read_ww3_file_chunks", "read_ncswan_file_chunks", "from_ww3_stdnames", "from_ncswan_stdnames", "from_wwm_direct", "from_era5_direct", "acc_stats_args", "acc_bbox_args", "acc_interp_args", "acc_plot_kwargs", "acc_plot_kwargs", "acc_split_args"])),
                 specs=[draw(gen.spectrum(kinds=("multinoisy", "sparse"))) for _ in range(2)], nt=draw(st.integers(1, 3)), ns=draw(st.sampled_from([2, 4])),
                 winds=[dict(wspd=draw(st.floats(1, 30)), wdir=draw(st.floats(0, 360)), dpt=draw(st.sampled_from([5.0, 50.0])))], latlon_time=draw(st.booleans()), as_list=draw(st.booleans()))
 
@@ -236,6 +236,33 @@ def check_helpers(case, ctx):
                     return one.spec.plot(kind=kind, subplot_kws=kws, levels=lev if kind != "pcolormesh" else None, **extra)
                 finally:
                     plt.close("all")
+    elif which in ("chunks_dict", "read_ww3_file_chunks", "read_ncswan_file_chunks"):
+        # the chunks dictionary a caller hands to a file reader (keys in wavespectra naming are translated for the file)
+        from wavespectra.input import chunks_dict
+        from wavespectra.input.ww3 import MAPPING as WW3_MAP
+        from wavespectra import read_ww3, read_ncswan
+
+        ch = {"time": 1, "site": 1} if case["as_list"] else {"site": 2, "freq": 2, "dir": -1}
+        args = dict(chunks=ch)
+        if which == "chunks_dict":
+            call = lambda: chunks_dict(ch, WW3_MAP)  # noqa: E731
+        else:
+            T = native.truth(case["fg"], case["dg"], case["specs"], case["nt"], case["ns"], case["winds"], gen)
+            nds = native.ww3(T, latlon_time=False) if which.startswith("read_ww3") else native.ncswan(T, latlon_time=False)
+            wd = os.path.join(env.workdir(), "c17r")
+            os.makedirs(wd, exist_ok=True)
+            pth = os.path.join(wd, "native.nc")
+            nds.to_netcdf(pth, format="NETCDF3_64BIT")
+            reader = read_ww3 if which.startswith("read_ww3") else read_ncswan
+
+            def call():
+                try:
+                    r = reader(pth, chunks=ch)
+                    r.load()
+                    r.close()
+                    return None
+                finally:
+                    shutil.rmtree(wd, ignore_errors=True)
     elif which.startswith("from_"):
         # the converters called directly, also on datasets that already carry the wavespectra names (native units and direction
         # sense): no renaming is needed then, which is where a converter could end up working on the caller's object
@@ -400,6 +427,6 @@ def facets():
     return [
         Facet("accessor", acc_case(), check_accessor, quick=400, thorough=24000, qshards=8),
         Facet("select", sel_case(), check_sel, quick=300, thorough=12000, qshards=2),
-        Facet("helpers", helper_case(), check_helpers, quick=200, thorough=8000, qshards=3),
+        Facet("helpers", helper_case(), check_helpers, quick=360, thorough=8000, qshards=3),
         Facet("writers", writer_case(), check_writers, quick=400, thorough=12000, qshards=4),
     ]
